@@ -77,7 +77,7 @@ def plan(tier, seed):
             ch.append({'k': 'single', 'scen': {'mode': 'f', 'second': kind, 'K': K}})
         # an output file left behind by an earlier, failed run (truncated / garbage) already sits under the output name
         for mode in ('j', 'jo'):
-            for stale in ('truncated', 'garbage', 'empty'):
+            for stale in ('truncated', 'garbage', 'empty', 'longer'):
                 ch.append({'k': 'single', 'scen': {'mode': mode, 'second': 'fine', 'K': K, 'stale': stale}})
         # stdout that reaches the device while the tool is still printing (terminal-like line buffering, tiny buffer),
         # for the JSON and the --hex rendering
@@ -135,7 +135,8 @@ class Run:
         if self.scen.get('stale') and self.expected_for_stale:
             outdir = pels if self.scen['mode'] == 'j' else os.path.join(self.root, 'out')
             for n, (sink, full) in self.expected_for_stale.items():
-                content = {'truncated': full[:len(full) // 3], 'garbage': b'{"stale": true}\n' * 5, 'empty': b''}[self.scen['stale']]
+                content = {'truncated': full[:len(full) // 3], 'garbage': b'{"stale": true}\n' * 5, 'empty': b'',
+                           'longer': full + b'\n{"left over from an earlier, longer document": true}\n' * 40}[self.scen['stale']]
                 with open(os.path.join(outdir, sink), 'wb') as f:
                     f.write(content)
                 self.stale[sink] = os.path.join(outdir, sink)
